@@ -46,8 +46,9 @@ Definition d2 (p x : list Q) : Q := dot (vsub p x) (vsub p x).
 Definition chk (c : kase) : bool :=
   match c with
   | KRegion r mi ok p proj isin =>
-      Bool.eqb (rctor_ok r) ok &&
-      (negb ok || (eqtag (Qclose_list Qtol) (rproject tolQ mi r p) proj && eqtag Bool.eqb (ris_in tolQ mi r p) isin))
+      if ok then
+        if rctor_ok r then eqtag (Qclose_list Qtol) (rproject tolQ mi r p) proj && eqtag Bool.eqb (ris_in tolQ mi r p) isin else false
+      else negb (rctor_ok r)
   | KDyk a b mi p res => eqtag (Qclose_list Qtol) (rdykstra tolQ mi a b p) res
   | KList rs ax m res isin =>
       eqtag (Qclose_mat Qtol) (list_project (rproject tolQ 1000) rs ax m) res &&
@@ -245,31 +246,41 @@ def gen_point(rng, r, kind):
   return hit(off - sg * dy(rng, F(1, 8), 4, 3))
 
 
-def impl_iterations(r, p, cap):
-  """how many passes the implementation's Dykstra loop makes on this input (None if it is never reached / raises early)"""
-  reg = mk_region(r, cap)
-  cnt = [0]
-  orig = reg._a.project
+def leaf_regions(reg):
+  from device_kit import projection as pj
+  if isinstance(reg, pj.Intersection):
+    return leaf_regions(reg._a) + leaf_regions(reg._b)
+  if isinstance(reg, pj.Slice):
+    return [reg._low, reg._high]
+  return [reg]
 
-  def counting(x):
-    cnt[0] += 1
-    return orig(x)
-  reg._a.project = counting
+
+def impl_cost(r, p, maxiter, direct):
+  """number of elementary projections the implementation performs on this input with this maxiter: a proxy for the cost of
+  evaluating the exact-rational model (whose numbers grow with every projection)"""
+  reg = mk_region(r, maxiter)
+  cnt = [0]
+  for leaf in leaf_regions(reg):
+    def counting(x, orig=leaf.project):
+      cnt[0] += 1
+      return orig(x)
+    leaf.project = counting
   try:
-    reg.dykstra_project(np.array(fl(p)))
+    (reg.dykstra_project if direct else reg.project)(np.array(fl(p)))
   except Exception:
     pass
   return cnt[0]
 
 
-def choose_maxiter(rng, a, b, p, friendly):
-  """default 1000 unless the exact model would need many passes over growing rationals; then lower maxiter so that both sides
-  raise (the raise path is part of the comparison)"""
-  lim = (40 if a[0] == 'inter' else 120) if friendly else 14
-  it = impl_iterations(['inter', a, b], p, lim + 1)
-  if it <= lim:
-    return pick(rng, [1000, 1000, 1000, it + 3, max(1, it - 1), max(1, it)])
-  return pick(rng, [lim, 8, 3, 1])
+def choose_maxiter(rng, a, b, p, friendly, direct):
+  """default 1000 unless the exact model would have to make many passes over growing rationals; then maxiter is lowered
+  (the raise path is part of the comparison)"""
+  budget = 500 if friendly else 60
+  r = ['inter', a, b]
+  for mi in [pick(rng, [1000, 1000, 1000, 30, 12]), 12, 5, 2, 1]:
+    if impl_cost(r, p, mi, direct) <= budget:
+      return mi
+  return 1
 
 
 # ---------------------------------------------------------------------------------------------------
@@ -342,8 +353,9 @@ def gen_cases(rng, tier):
     if rng.random() < 0.2:   # far apart boxes / slabs: empty intersections, Dykstra cannot converge
       a, b = gen_box(rng, n), gen_box(rng, n)
     p = [dy(rng, -6, 6, 2) for _ in range(n)]
-    mi = choose_maxiter(rng, a, b, p, friendly)
-    if i % 3 == 0:
+    direct = i % 3 == 0
+    mi = choose_maxiter(rng, a, b, p, friendly, direct)
+    if direct:
       out.append({'kind': 'dyk', 'a': a, 'b': b, 'maxiter': mi, 'p': p})
     else:
       out.append({'kind': 'region', 'r': ['inter', a, b], 'maxiter': mi, 'p': p, 'pk': 'random'})
@@ -447,8 +459,8 @@ def observe(c):
     desc = cc.linear_description(dev)
     p = np.array(fl(c['p']))
     ref = cc.nearest(p, desc)
-    if ref is None or not desc[6] or cc.degenerate(desc):
-      return {'skip': 'empty feasible set' if ref is None else 'non-affine constraint' if not desc[6] else 'rank-deficient equalities', 'status': -1}
+    if ref is None or not desc[6] or cc.degenerate(desc) or cc.licq_fails(ref, desc):
+      return {'skip': 'empty feasible set' if ref is None else 'non-affine constraint' if not desc[6] else 'dependent active constraints', 'status': -1}
     x0 = cc.feasible_point(desc)       # step() starts utils.project at a feasible flow
     x, o = project(p.reshape(dev.shape), x0.copy(), dev.bounds, dev.constraints)
     if tuple(x.shape) != tuple(x0.shape):
@@ -748,8 +760,8 @@ def oracle_uproj(c):
   desc = cc.linear_description(dev)
   p = np.array(fl(c['p']))
   ref = cc.nearest(p, desc)
-  if ref is None or not desc[6] or cc.degenerate(desc):
-    return None
+  if ref is None or not desc[6] or cc.degenerate(desc) or cc.licq_fails(ref, desc):
+    return None      # linearly dependent active constraints: SLSQP's success flag is unreliable there (reported finding)
   x0 = cc.feasible_point(desc)
   x, o = project(p.reshape(dev.shape), x0.copy(), dev.bounds, dev.constraints)
   if tuple(x.shape) != tuple(x0.shape):
